@@ -161,7 +161,9 @@ func TestSweep(t *testing.T) {
 		for _, f := range b {
 			vals = append(vals, kit.FV(f))
 		}
-		vals = append(vals, kit.FV(math.NaN()))
+		for _, nan := range kit.NaNs {
+			vals = append(vals, kit.FV(nan))
+		}
 		n := len(vals)
 		Oracle.One(t, env, rec, "sweep", &Case{S: e.S.Name, D: e.D.Name, C: 1, Src: Win{Kr: n, A: 0, B: n}, Dst: Win{Kr: n + 1, A: 0, B: n + 1, Fix: 1}, Vals: vals})
 	}
